@@ -818,6 +818,7 @@ func blockList(path []*ssa.BasicBlock) string {
 // ---------------------------------------------------------------- C04
 
 func runLinkRules(c *Ctx) {
+	runTablesOnlyGrow(c)
 	runLinkAll(c)
 	r := newRtCtx(c)
 	if r == nil {
@@ -2042,4 +2043,76 @@ func fromDispatcher(r *rtCtx, v ssa.Value) bool {
 	}
 	call, isCall := src.(*ssa.Call)
 	return isCall && callsDirectly(staticCallee(call), r.parseTU)
+}
+
+// runTablesOnlyGrow: the tables ParseRealtime keeps while it goes through the entities (accumulators by id, the two
+// association tables between trips and vehicles) only grow: nothing the realtime parser reaches deletes from a map.
+// An entry removed for the sake of a later entity makes the result depend on the order of the entities and leaves a
+// trip whose update carried a vehicle without one.
+func runTablesOnlyGrow(c *Ctx) {
+	p := c.P
+	n, bad := 0, ""
+	for _, f := range realtimeFns(c) {
+		for _, b := range f.Blocks {
+			for _, in := range b.Instrs {
+				switch x := in.(type) {
+				case *ssa.MapUpdate:
+					n++
+				case *ssa.Call:
+					if isBuiltin(x, "delete") || isBuiltin(x, "clear") {
+						if bad == "" {
+							bad = "an entry is removed at " + p.ipos(x) + " in " + shortName(f)
+						}
+					}
+				}
+			}
+		}
+	}
+	c.Check(bad == "" && n > 0, "LINK", "gtfs", "the parser's tables only grow", "-", fmt.Sprintf("%d map updates, no delete", n), bad+": what an earlier entity recorded (the vehicle of its trip, the trip of its vehicle, an accumulated entry) is lost for the sake of a later one")
+}
+
+// runComparatorPlain: the comparators that order Trips and Vehicles (TripID.Less, VehicleID.less and what they call in
+// the module) compare the fields of the identifiers as they are. A comparator that first converts what it compares
+// (numbers parsed out of ids, case folding) is no longer a strict total order on distinct identifiers: "7" and "007"
+// tie, "2" < "10" < "1a" < "2" is a cycle, and the sorted result depends on the order the map was read in.
+func runComparatorPlain(c *Ctx, rule string) {
+	p := c.P
+	n := 0
+	for _, fn := range p.ModFns {
+		if fn.Signature.Recv() == nil || len(fn.Blocks) == 0 || fnPkgPath(fn) != modPath || (fn.Name() != "Less" && fn.Name() != "less") || fn.Synthetic != "" {
+			continue
+		}
+		rt := typeName(fn.Signature.Recv().Type())
+		if rt != "gtfs.TripID" && rt != "gtfs.VehicleID" {
+			continue
+		}
+		n++
+		bad := ""
+		for _, g := range c.regionOf(fn) {
+			if fnPkgPath(g) != modPath {
+				continue
+			}
+			for _, b := range g.Blocks {
+				for _, in := range b.Instrs {
+					call, ok := in.(*ssa.Call)
+					if !ok {
+						continue
+					}
+					name := calleeName(call)
+					if h := staticCallee(call); h != nil && p.isModuleFn(h) {
+						continue
+					}
+					switch {
+					case strings.HasPrefix(name, "(time.Time)."), name == "strings.Compare", isBuiltin(call, "len"):
+					default:
+						if bad == "" {
+							bad = trimMod(name) + " at " + p.ipos(call)
+						}
+					}
+				}
+			}
+		}
+		c.Check(bad == "", rule, shortName(fn), "the comparator compares the identifier's fields as they are", p.pos(fn.Pos()), "no conversion of the compared values (only time comparisons, strings.Compare, len)", "the comparator calls "+bad+": distinct identifiers can tie or form a cycle, and the order of the sorted result then depends on the order the map was read in")
+	}
+	c.Stats[rule+" identifier comparators"] = n
 }
